@@ -63,12 +63,12 @@ _REP = [False]
 def verify(mk, nets, tag):
     """nets: dict name -> live TensorNetwork"""
     live = {id(n): n for n in nets.values()}
-    if any(len(set(t.inds)) != len(t.inds) for tn in nets.values() for t in tn.tensor_map.values()):
-        _REP[0] = True          # sticky for the rest of this history
     for name, tn in nets.items():
         imap, tmap = scan(tn)
-        # a label repeated on ONE tensor: the statement does not define inner/outer for it and
-        # the library is not self-consistent there (known finding); mark such goals
+        # known finding: a modify / reindex step executed while some tensor carries a label repeated on itself
+        # (the step creates, removes or renames such a repetition) updates the owners through label sets; goals
+        # after such a step (and for the rest of that history, the stale state persists) carry a marker.  Repetitions that exist from the start, or that
+        # are met by pop / add / copy / combine steps, are NOT marked: there the library must be exact.
         R = " [repeated-label-history]" if _REP[0] else ""
         mk.same(f"{tag}: {name}.ind_map == fresh scan", as_plain(tn.ind_map), imap)
         mk.same(f"{tag}: {name}.tag_map == fresh scan", as_plain(tn.tag_map), tmap)
@@ -262,6 +262,12 @@ def s_combine(a, b, dst, op):
         # no bond of B coincides with a bond of A afterwards
         ntA = len(preA)
         Cts = list(C.tensor_map.values())
+        # every axis of B's tensors that carried an OUTER label of B still carries that very label (it may
+        # well coincide with a label - even a bond - of A: it then joins it, it is never renamed)
+        for k_, (tid_, t_) in enumerate(B.tensor_map.items()):
+            for ax_, ix_ in enumerate(t_.inds):
+                if ix_ in outerB:
+                    mk.same(f"{dst}: outer label of {b} kept on its axis", Cts[ntA + k_].inds[ax_] == ix_, True)
         for ix, pos in bondsB.items():
             # tensors of B come after those of A in C; locate by order
             tB = list(B.tensor_map)
@@ -321,9 +327,16 @@ def run(mk, start, steps, nlabels=6, ntags=3):
     elif start == "one":
         st["nets"]["A"] = qtn.TensorNetwork([T([L[0], L[1]], [G[0]])])
     verify(mk, st["nets"], "start")
+    def _reps():
+        return {id(t): len(set(t.inds)) != len(t.inds) for tn in st["nets"].values() for t in tn.tensor_map.values()}
+
     for k, (name, fn) in enumerate(steps):
+        before = _reps()
         try:
             fn(mk, st)
+            after = _reps()
+            if any(tok in name for tok in (".modify(inds", ".reindex_(")) and (any(before.values()) or any(after.values())):
+                _REP[0] = True          # sticky for the rest of this history
         except Skip as e:
             mk.note(f"step {k} {name}: skipped ({e})")
             continue
